@@ -171,6 +171,15 @@ Definition clear_path (pol : policy) (p : nat) (tops reach : list nat) (st : sta
   | None => st
   end.
 
+(* the same as a history of clear_cache(f) / clear_mask_caches() calls (C05.Memo.hop; MemoLink.clear_path_is_clear_cache) *)
+Definition clear_hops (pol : policy) (p : nat) (tops reach : list nat) : list hop :=
+  match pol p with
+  | Some (0, _) => map HClear tops
+  | Some (1, _) => map HClear reach
+  | Some (2, _) => [HClearAll]
+  | _ => []
+  end.
+
 Definition is_before (pol : policy) (p : nat) : bool :=
   match pol p with Some (_, b) => b | None => true end.
 
